@@ -13,7 +13,8 @@ import math
 from . import common as C
 from .common import frac, to_float, is_finite, vsub, vadd, vscale, vdot, vcross, vnorm2
 
-B = 3                                    # band factor around every documented threshold
+B = 3                                    # band factor around every documented threshold on a *derived* measure
+BC = Fraction(3, 2)                      # band factor for thresholds applied to raw coordinates / coordinate differences
 T5 = Fraction(1, 10**5)                  # Point3D::compare / is_collinear / is_parallel / get_intersection_pt
 BIG = 1e100                              # absurd operands
 METRE = 100                              # "metre scale": |coordinate| <= 100 (needed only for scale-dependent predicates)
@@ -46,21 +47,24 @@ def num_ok(tok, exact, scale):
 def vec_ok(toks, i, exact, scale):
     return all(num_ok(toks[i + k], exact[k], scale) for k in range(3))
 
-def near3(q, thr):
-    """classify a non-negative exact measure against a threshold: 'in' (<= thr/B), 'out' (>= thr*B) or 'band'"""
-    if q * B <= thr: return 'in'
-    if q >= thr * B: return 'out'
+def near3(q, thr, f=B):
+    """classify a non-negative exact measure against a threshold: 'in' (<= thr/f), 'out' (>= thr*f) or 'band'"""
+    if q * f <= thr: return 'in'
+    if q >= thr * f: return 'out'
     return 'band'
 
-def near3sq(q2, thr):
+def near3sq(q2, thr, f=B):
     """same, for a squared measure q2 against thr (unsquared)"""
-    if q2 * B * B <= thr * thr: return 'in'
-    if q2 >= thr * thr * B * B: return 'out'
+    if q2 * f * f <= thr * thr: return 'in'
+    if q2 >= thr * thr * f * f: return 'out'
     return 'band'
 
 def same_pt(a, b):
     """Point3D::compare / Vector3D::compare: every coordinate differs by less than 1e-5"""
-    return near3(cheb(a, b), T5)
+    d = cheb(a, b)
+    if d == 0: return 'in'
+    if 16 * C.FMT.eps * maxabs(a, b) > T5: return 'band'       # (f32 far from the origin) the tolerance is below the rounding noise
+    return near3(d, T5, BC)
 
 def bits_equal(toks, i, src, j, n=3):
     return all(toks[i + k] == src[j + k] or (frac(toks[i + k]) == frac(src[j + k])) for k in range(n))
@@ -101,7 +105,7 @@ def j_vec_norm(ln):
 
 def j_vec_zero(ln):
     a = P(ln.args, 0); got = ln.res[0] == '1'
-    m = maxabs(a); st = near3(m, TINY())
+    m = maxabs(a); st = near3(m, TINY(), BC)
     if st == 'band': return BAND
     want = st == 'in'
     if got != want: return ('fail', 'is-zero', 'largest component %s, is_zero=%s' % (g(m), got))
@@ -110,7 +114,7 @@ def j_vec_zero(ln):
 def j_vec_cmp(ln):
     a, b = P(ln.args, 0), P(ln.args, 3); got = ln.res[0] == '1'
     # the test is per coordinate: all three must be inside; one outside decides
-    sts = [near3(abs(a[k] - b[k]), T5) for k in range(3)]
+    sts = [near3(abs(a[k] - b[k]), T5, BC) for k in range(3)]
     if 'out' in sts: want = False
     elif all(s == 'in' for s in sts): want = True
     else: return BAND
@@ -120,7 +124,7 @@ def j_vec_cmp(ln):
 def j_vec_par(ln):
     a, b = P(ln.args, 0), P(ln.args, 3)
     par, same = ln.res[0] == '1', ln.res[1] == '1'
-    za, zb = near3(maxabs(a), TINY()), near3(maxabs(b), TINY())
+    za, zb = near3(maxabs(a), TINY(), BC), near3(maxabs(b), TINY(), BC)
     if za == 'band' or zb == 'band': return BAND
     if za == 'in' or zb == 'in':
         # documented: a (numerically) zero vector is parallel to nothing
@@ -146,7 +150,7 @@ def j_vec_par(ln):
 
 def j_vec_perp(ln):
     a = P(ln.args, 0); m = maxabs(a)
-    st = near3(m, TINY())
+    st = near3(m, TINY(), BC)
     if ln.res[0] == 'panic': return ('fail', 'panic', 'get_perpendicular panicked')
     if ln.res[0] == 'err':
         if st == 'in': return OK                       # documented: no perpendicular to a zero vector
@@ -267,13 +271,15 @@ def on_seg_exact(p, s, e):
 def pt_on_seg_status(s, e, q):
     """segment with clearly distinct ends: 'inside' | 'outside' | 'band' | 'ill'   (+ a short reason)"""
     if q == s or q == e: return 'inside', 'end point'
-    if same_pt(q, s) != 'out' or same_pt(q, e) != 'out': return 'band', ''      # coincidence zone of an end point
     ab = vsub(e, s); aq = vsub(q, s); l2 = vnorm2(ab); l = fsqrt(l2)
     if ill_conditioned((s, e, q), (l, flen(aq)), T5): return 'ill', ''
     x2 = vnorm2(vcross(aq, ab))
     st = near3sq(x2, T5)
-    if st == 'band': return 'band', ''
-    if st == 'out': return 'outside', 'off the line: |aq x ab| = %s' % g(fsqrt(x2))
+    if st != 'in':
+        # off the line (or in the band): a point within the coincidence tolerance of an end counts as collinear all the same
+        if same_pt(q, s) != 'out' or same_pt(q, e) != 'out': return 'band', ''
+        if st == 'band': return 'band', ''
+        return 'outside', 'off the line: |aq x ab| = %s' % g(fsqrt(x2))
     t = vdot(aq, ab) / l2
     dline = fsqrt(x2) / l
     delta = 4 * dline / l + 16 * float(C.FMT.eps) * (1 + float(maxabs(s, e, q)) / l)
@@ -298,14 +304,14 @@ def j_seg_cpt(ln):
         if dist2_pt_seg(p, s, e) >= (T5 * B) ** 2: want = False
         elif on_seg_exact(p, s, e) and linf > EPS() * B and p != s and p != e and min(vnorm2(vsub(p, s)), vnorm2(vsub(p, e))) * 100 > vnorm2(ab): want = True
         else: return ('skip', 'degenerate-segment')
-        if got != want: return ('fail', 'contains-point-short-segment', 'segment of extent %s, point at distance %s: contains_point=%s' % (g(linf), g(fsqrt(dist2_pt_seg(p, s, e))), got))
+        if got != want: return ('fail', 'point-on-short-segment-rejected' if want else 'far-point-on-short-segment-accepted', 'segment of extent %s, point at distance %s: contains_point=%s' % (g(linf), g(fsqrt(dist2_pt_seg(p, s, e))), got))
         return OK
     st, why = pt_on_seg_status(s, e, p)
     if st == 'ill': return ('skip', 'ill-conditioned')
     if st == 'band': return BAND
     if got is None: return ('fail', 'contains-point-err', 'Err for a proper segment (%s)' % why)
     want = st == 'inside'
-    if got != want: return ('fail', 'contains-point', 'point %s the segment (%s) but contains_point=%s' % ('on' if want else 'off', why, got))
+    if got != want: return ('fail', 'point-on-segment-rejected' if want else 'point-off-segment-accepted', 'point %s the segment (%s) but contains_point=%s' % ('on' if want else 'off', why, got))
     return OK
 
 def j_seg_cont(ln):
@@ -314,7 +320,7 @@ def j_seg_cont(ln):
     if R[0] == 'panic': return ('fail', 'panic', 'contains panicked')
     got = None if R[0] == 'err' else (R[1] == '1')
     ab = vsub(b1, a1)
-    stl = near3sq(vnorm2(ab), Fraction(1, 10**6))
+    stl = near3sq(vnorm2(ab), Fraction(1, 10**6), BC)          # |self| < 1e-6: a raw length, well conditioned
     if stl == 'band': return BAND
     if stl == 'in':
         if got is None: return OK                                              # documented: zero-length container
@@ -334,7 +340,7 @@ def j_seg_cont(ln):
     else: return BAND
     why = 'start: %s %s; end: %s %s' % (s1, w1, s2, w2)
     if got is None: return ('fail', 'contains-err', 'Err for a proper container (%s)' % why)
-    if got != want: return ('fail', 'contains', 'expected %s (%s), contains=%s' % (want, why, got))
+    if got != want: return ('fail', 'contained-segment-rejected' if want else 'uncontained-segment-accepted', 'expected %s (%s), contains=%s' % (want, why, got))
     return OK
 
 # ---- segment x segment -----------------------------------------------------------------------------------------
@@ -457,3 +463,364 @@ def j_seg_int(ln):
             if e > max(tol, float(T5) * B): return ('fail', 'crossing-point-wrong', '%s point is %s from the exact crossing point (%s)' % (nm, g(e), where))
     if want_i is None and want_t is None: return BAND
     return OK
+
+# ---- triangles ---------------------------------------------------------------------------------------------------
+class Tri:
+    def __init__(self, a, b, c):
+        self.a, self.b, self.c = a, b, c
+        self.e1, self.e2 = vsub(b, a), vsub(c, a)
+        self.n = vcross(self.e1, self.e2); self.n2 = vnorm2(self.n); self.nl = fsqrt(self.n2)
+        self.lab, self.lbc, self.lca = flen(self.e1), flen(vsub(c, b)), flen(self.e2)
+        self.M = float(maxabs(a, b, c))
+        lmax = max(self.lab, self.lbc, self.lca)
+        # conditioning of everything that divides by |n|: (longest side)^2 / |n|  (>= ~1.15)
+        self.cond = lmax * lmax / self.nl if self.nl > 0 else float('inf')
+    def status(self):
+        """Triangle3D::new: 'ok' | 'err' | None (band) | 'ill'"""
+        a, b, c = self.a, self.b, self.c
+        ps = (same_pt(a, b), same_pt(a, c), same_pt(b, c))
+        if 'in' in ps: return 'err'                              # documented: two equal points
+        if ill_conditioned((a, b, c), (self.lab, self.lbc), T5): return 'ill'
+        st = near3sq(vnorm2(vcross(self.e1, vsub(c, b))), T5)    # documented: collinear points
+        if st == 'in': return 'err'
+        if 'band' in ps or st == 'band': return None
+        return 'ok'
+
+def tri_prelude(T, R):
+    """common handling of `ok …` / `err` / `panic`; returns a verdict or None to go on"""
+    st = T.status()
+    if R[0] == 'panic': return ('fail', 'panic', 'Triangle3D::new panicked')
+    if st == 'ill': return ('skip', 'ill-conditioned')
+    if R[0] == 'err':
+        if st == 'err': return OK
+        if st is None: return BAND
+        return ('fail', 'triangle-refused', 'proper triangle (|ab x ac| = %s, sides %s %s %s) refused' % (g(T.nl), g(T.lab), g(T.lbc), g(T.lca)))
+    if st == 'err': return ('fail', 'degenerate-triangle-accepted', 'triangle with |ab x ac| = %s, sides %s %s %s accepted' % (g(T.nl), g(T.lab), g(T.lbc), g(T.lca)))
+    return None
+
+def j_tri_new(ln):
+    A, R = ln.args, ln.res
+    T = Tri(P(A, 0), P(A, 3), P(A, 6))
+    v = tri_prelude(T, R)
+    if v is not None: return v
+    R = R[1:]
+    if not sane(R[:20]): return ('fail', 'triangle-non-finite', 'non-finite derived quantity')
+    eps = float(C.FMT.eps)
+    lmin = min(T.lab, T.lbc, T.lca)
+    rel = REL() * T.cond + 32 * eps * T.cond * (1 + T.M / lmin)       # relative accuracy owed to quantities ~ 1/|n|
+    if rel > 1e-2: return ('skip', 'ill-conditioned')
+    nh = tuple(float(c) / T.nl for c in T.n)
+    if not all(abs(to_float(R[k]) - nh[k]) <= rel for k in range(3)):
+        return ('fail', 'triangle-normal', 'unit normal (%s,%s,%s) expected' % tuple(g(c) for c in nh))
+    area = T.nl / 2
+    if abs(to_float(R[3]) - area) > rel * area: return ('fail', 'triangle-area', 'area %s expected, %s reported' % (g(area), g(to_float(R[3]))))
+    rad = T.lab * T.lbc * T.lca / (2 * T.nl)
+    if abs(to_float(R[4]) - rad) > rel * rad * T.cond: return ('fail', 'triangle-circumradius', 'circumradius %s expected, %s reported' % (g(rad), g(to_float(R[4]))))
+    asp = rad / lmin
+    if R[5] != R[6] or abs(to_float(R[5]) - asp) > rel * asp * T.cond: return ('fail', 'triangle-aspect-ratio', 'aspect ratio %s expected, %s reported' % (g(asp), g(to_float(R[5]))))
+    l1, l2 = vnorm2(T.e1), vnorm2(T.e2)
+    off = vscale(vadd(vscale(vcross(T.n, T.e1), l2), vscale(vcross(T.e2, T.n), l1)), 1 / (2 * T.n2))
+    cc = vadd(T.a, off)
+    e = flen(vsub(P(R, 7), cc))
+    if e > rel * T.cond * rad + REL() * T.M: return ('fail', 'triangle-circumcentre', 'circumcentre off by %s (circumradius %s)' % (g(e), g(rad)))
+    cen = vscale(vadd(vadd(T.a, T.b), T.c), Fraction(1, 3))
+    if not vec_ok(R, 10, cen, max(T.M, 1e-300)): return ('fail', 'triangle-centroid', 'centroid is not (a+b+c)/3')
+    lo = tuple(min(T.a[k], T.b[k], T.c[k]) for k in range(3)); hi = tuple(max(T.a[k], T.b[k], T.c[k]) for k in range(3))
+    if P(R, 13) != lo or P(R, 16) != hi: return ('fail', 'triangle-bounds', 'bounds are not the coordinate-wise min/max of the vertices')
+    return OK
+
+TP_NAMES = ['VertexA', 'VertexB', 'VertexC', 'EdgeAB', 'EdgeBC', 'EdgeAC', 'Inside', 'Outside']
+
+def j_tri_tp(ln):
+    A, R = ln.args, ln.res
+    T = Tri(P(A, 0), P(A, 3), P(A, 6)); p = P(A, 9)
+    v = tri_prelude(T, R)
+    if v is not None: return v
+    got = int(R[1])
+    if p == T.a: want = 0
+    elif p == T.b: want = 1
+    elif p == T.c: want = 2
+    else:
+        pa = vsub(p, T.a)
+        size = max(T.lab, T.lbc, T.lca)
+        h = abs(float(vdot(pa, T.n))) / T.nl
+        eps = float(C.FMT.eps)
+        if h > max(1e-9, 64 * eps * (1 + T.M / size)) * size: return ('skip', 'point-off-plane')      # documented precondition
+        e11, e22, e12 = vnorm2(T.e1), vnorm2(T.e2), vdot(T.e1, T.e2)
+        l1, l2 = vdot(T.e1, pa), vdot(T.e2, pa)
+        al = (e22 * l1 - e12 * l2) / T.n2; be = (e11 * l2 - e12 * l1) / T.n2; w = 1 - al - be
+        # worst-case rounding error of the crate's normal-equation solve (cancellation in det and in the numerators)
+        cA = T.lab * T.lca / T.nl; lpa = flen(pa); lmin = min(T.lab, T.lca)
+        base = 8 * eps * cA * T.M / lmin
+        n_al = eps * cA * cA * (8 * lpa / T.lab + 4 * abs(float(al)) + 4) + base
+        n_be = eps * cA * cA * (8 * lpa / T.lca + 4 * abs(float(be)) + 4) + base
+        tiny = float(TINY()); f = float(BC)
+        # the documented tolerance (100 eps on the barycentric coordinates) is only a few times the rounding noise, so the
+        # band is the raw-comparison factor BC plus that noise
+        def cls(c, noise):
+            c = float(c)
+            if c <= -(tiny * f + noise): return 'neg'
+            if c >= tiny * f + noise: return 'pos'
+            if abs(c) <= tiny / f - noise: return 'zero'
+            return 'band'
+        ca, cb, cw = cls(al, n_al), cls(be, n_be), cls(w, n_al + n_be)
+        if 'neg' in (ca, cb, cw): want = 7
+        elif 'band' in (ca, cb, cw): return BAND
+        else:
+            z = (ca == 'zero', cb == 'zero', cw == 'zero')
+            want = {(True, True, False): 0, (True, False, True): 2, (False, True, True): 1, (True, False, False): 5,
+                    (False, False, True): 4, (False, True, False): 3, (False, False, False): 6}.get(z)
+            if want is None: return BAND
+    if got != want:
+        return ('fail', 'point-in-triangle', 'expected %s, reported %s' % (TP_NAMES[want], TP_NAMES[got] if 0 <= got < 8 else got))
+    return OK
+
+def seg_cmp3(p, q, s, e):
+    return k_or(k_and(k_same(p, s), k_same(q, e)), k_and(k_same(q, s), k_same(p, e)))
+
+def j_tri_idx(ln):
+    A, R = ln.args, ln.res
+    vs = (P(A, 0), P(A, 3), P(A, 6)); i = int(A[9])
+    v = tri_prelude(Tri(*vs), R)
+    if v is not None: return v
+    R = R[1:]
+    if i > 2:
+        return OK if R == ['err', 'err'] else ('fail', 'index-out-of-bounds-accepted', 'vertex/segment %d: %s' % (i, ' '.join(R)))
+    if R[0] != 'ok' or not sane(R[1:4]) or P(R, 1) != vs[i]: return ('fail', 'vertex-index', 'vertex(%d) is not the %d-th constructor argument' % (i, i))
+    if R[4] != 'ok' or not sane(R[5:12]): return ('fail', 'segment-index', 'segment(%d) missing' % i)
+    s, e = vs[i], vs[(i + 1) % 3]
+    if P(R, 5) != s or P(R, 8) != e: return ('fail', 'segment-index', 'segment(%d) does not join vertex %d to vertex %d' % (i, i, (i + 1) % 3))
+    l = flen(vsub(e, s)); M = float(maxabs(s, e))
+    if not num_ok(R[11], l, max(l, float(C.FMT.eps) / REL() * M)): return ('fail', 'segment-length', 'length %s expected' % g(l))
+    return OK
+
+def j_tri_edge(ln):
+    A, R = ln.args, ln.res
+    vs = (P(A, 0), P(A, 3), P(A, 6)); p, q = P(A, 9), P(A, 12)
+    v = tri_prelude(Tri(*vs), R)
+    if v is not None: return v
+    R = R[1:]
+    if R[0] != R[1]: return ('fail', 'edge-index-inconsistent', 'from_segment=%s from_points=%s' % (R[0], R[1]))
+    want = '-'; undecided = False
+    for i in range(3):
+        m = seg_cmp3(p, q, vs[i], vs[(i + 1) % 3])
+        if m is None: undecided = True; break
+        if m: want = str(i); break
+    if not undecided and R[0] != want:
+        return ('fail', 'edge-index', 'edge %s expected, %s reported' % (want, R[0]))
+    hv = k_or(k_or(k_same(vs[0], p), k_same(vs[1], p)), k_same(vs[2], p))
+    if hv is not None and (R[2] == '1') != hv:
+        return ('fail', 'has-vertex', 'nearest vertex is %s away, has_vertex=%s' % (g(min(cheb(x, p) for x in vs)), R[2]))
+    if undecided and hv is None: return BAND
+    return OK
+
+def j_tri_cmp(ln):
+    A, R = ln.args, ln.res
+    vs = (P(A, 0), P(A, 3), P(A, 6)); ws = (P(A, 9), P(A, 12), P(A, 15))
+    s1, s2 = Tri(*vs).status(), Tri(*ws).status()
+    if R[0] == 'panic': return ('fail', 'panic', 'panic')
+    if 'ill' in (s1, s2): return ('skip', 'ill-conditioned')
+    if R[0] == 'err':
+        if s1 == 'err' or s2 == 'err': return OK
+        if s1 is None or s2 is None: return BAND
+        return ('fail', 'triangle-refused', 'both triangles are proper')
+    if s1 == 'err' or s2 == 'err': return ('fail', 'degenerate-triangle-accepted', 'a degenerate triangle was built')
+    def has(p): return k_or(k_or(k_same(ws[0], p), k_same(ws[1], p)), k_same(ws[2], p))
+    want = k_and(k_and(has(vs[0]), has(vs[1])), has(vs[2]))
+    if want is None: return BAND
+    got = R[1] == '1'
+    if got != want: return ('fail', 'triangle-compare', 'same vertex set = %s, compare = %s' % (want, got))
+    return OK
+
+def j_tri_mt(ln):
+    A, R = ln.args, ln.res
+    o, d = P(A, 0), P(A, 3)
+    T = Tri(P(A, 6), P(A, 9), P(A, 12))
+    v = tri_prelude(T, R)
+    if v is not None: return v
+    R = R[1:]
+    eps = float(C.FMT.eps); tiny = float(TINY())
+    h = vcross(d, T.e2); det = vdot(T.e1, h)
+    s = vsub(o, T.a)
+    ld, ls = flen(d), flen(s)
+    if ld == 0: return ('skip', 'degenerate')
+    l1, l2 = T.lab, T.lca
+    M = max(T.M, float(maxabs(o)))
+    ndet = 32 * eps * ld * l1 * (l2 + eps * M)
+    ad = abs(float(det))
+    if ad <= tiny / B - ndet: want = 'none'                       # documented: ray parallel to the plane
+    elif ad < tiny * B + ndet: return BAND
+    else:
+        u = vdot(s, h) / det
+        q = vcross(s, T.e1)
+        vv = vdot(d, q) / det
+        t = vdot(T.e2, q) / det
+        nz = 32 * eps * (ls + M) * ld * max(l1, l2) / ad * (1 + abs(float(u)) + abs(float(vv)))
+        if nz > 1e-3: return ('skip', 'ill-conditioned')
+        nt = 32 * eps * (ls + M) * l1 * l2 / ad
+        def st(x, lo, hi, n):
+            if lo + n < x < hi - n: return 'in'
+            if x < lo - n or x > hi + n: return 'out'
+            return 'edge'
+        su, sv, sw = st(u, 0, 1, nz), st(vv, 0, 1, nz), st(u + vv, -1, 1, 2 * nz)
+        tf = float(t)
+        if tf >= tiny * B + nt * (1 + abs(tf)): stt = 'in'
+        elif tf <= tiny / B - nt * (1 + abs(tf)): stt = 'out'
+        else: stt = 'edge'
+        alls = (su, sv, sw, stt)
+        if 'out' in alls: want = 'none'
+        elif all(x == 'in' for x in alls): want = 'some'
+        else: return BAND
+    if want == 'none':
+        if R[0] != 'none':
+            return ('fail', 'ray-triangle-false-hit', 'no hit expected (det = %s%s) but %s' % (g(det), '' if ad <= tiny else ', u = %s, v = %s, t = %s' % (g(u), g(vv), g(t)), ' '.join(R[:1])))
+        return OK
+    if R[0] != 'some': return ('fail', 'ray-triangle-missed', 'hit expected at u = %s, v = %s, t = %s' % (g(u), g(vv), g(t)))
+    if not sane(R[1:6]): return ('fail', 'ray-triangle-non-finite', 'non-finite hit')
+    X = vadd(o, vscale(d, t))
+    e = flen(vsub(P(R, 1), X))
+    if e > (REL() + nt) * (M + abs(tf) * ld) * 4: return ('fail', 'ray-triangle-hit-point', 'hit point off by %s' % g(e))
+    if abs(to_float(R[4]) - float(u)) > REL() + nz or abs(to_float(R[5]) - float(vv)) > REL() + nz:
+        return ('fail', 'ray-triangle-uv', '(u,v) = (%s,%s) expected' % (g(u), g(vv)))
+    return OK
+
+# ---- surface areas of primitives and boxes -----------------------------------------------------------------------
+def rd_ot(toks, i):
+    """optional transform `N` | `Y n elem…` -> (present, has a non-unit scale, finite, next index)"""
+    if toks[i] == 'N': return False, False, True, i + 1
+    n = int(toks[i + 1]); i += 2
+    scaled = False; fin = True
+    for _ in range(n):
+        k = toks[i]; i += 1
+        if k in ('T', 'S'):
+            v = toks[i:i + 3]; i += 3
+            if not sane(v): fin = False
+            elif k == 'S' and any(abs(frac(t)) != 1 for t in v): scaled = True
+        elif k in ('RX', 'RY', 'RZ'):
+            if not sane(toks[i:i + 1]): fin = False
+            i += 1
+    return True, scaled, fin, i
+
+def area_check(kind, got_tok, want, what):
+    if not is_finite(got_tok): return ('fail', kind + '-area', 'area not finite (%s)' % what)
+    got = to_float(got_tok)
+    if abs(got - want) > REL() * abs(want): return ('fail', kind + '-area', 'area %.12g expected (%s), %.12g reported' % (want, what, got))
+    return OK
+
+def phi_of(tok):
+    """phi_max in degrees -> radians (None when outside the documented 0..360 range)"""
+    pm = to_float(tok)
+    if not (0 <= pm <= 360): return None
+    return math.radians(pm)
+
+def j_sphere(ln):
+    A, R = ln.args, ln.res
+    k = A[0]
+    try:
+        if k == 'S0': nums = A[1:5]; r = A[1]; z = None; pm = None; ot = None
+        elif k == 'S1': nums = A[1:8]; r = A[1]; z = (A[5], A[6]); pm = A[7]; ot = None
+        elif k == 'S2': nums = A[1:2]; r = A[1]; z = None; pm = None; ot = 2
+        elif k == 'S3': nums = A[1:5]; r = A[1]; z = (A[2], A[3]); pm = A[4]; ot = 5
+        else: return ('skip', 'leaf')
+    except IndexError: return MALFORMED
+    if not sane(nums): return MALFORMED
+    if ot is not None:
+        _, scaled, fin, _ = rd_ot(A, ot)
+        if not fin: return MALFORMED
+        if scaled: return ('skip', 'scaled-transform')
+    rad = to_float(r)
+    if rad <= 0: return MALFORMED
+    zmin, zmax = (-2 * rad, 2 * rad) if z is None else (to_float(z[0]), to_float(z[1]))
+    if zmin > zmax: return MALFORMED
+    phi = 2 * math.pi if pm is None else phi_of(pm)
+    if phi is None: return MALFORMED
+    if R[0] != 'ok': return ('skip', 'not-built')
+    zmin, zmax = max(zmin, -rad), min(zmax, rad)
+    if zmin > zmax: return MALFORMED                     # zone entirely outside the sphere
+    # spherical zone (Archimedes): phi * r * height
+    return area_check('sphere', R[8], phi * rad * (zmax - zmin), 'r=%g z=[%g,%g] phi=%g' % (rad, zmin, zmax, phi))
+
+def j_cyl(ln):
+    A, R = ln.args, ln.res
+    k = A[0]
+    try:
+        if k in ('C0', 'C1'):
+            nums = A[1:8] if k == 'C0' else A[1:9]
+            if not sane(nums): return MALFORMED
+            L = flen(vsub(P(A, 4), P(A, 1))); rad = to_float(A[7])
+            phi = 2 * math.pi if k == 'C0' else phi_of(A[8])
+        elif k == 'C2':
+            if not sane(A[1:5]): return MALFORMED
+            _, scaled, fin, _ = rd_ot(A, 5)
+            if not fin: return MALFORMED
+            if scaled: return ('skip', 'scaled-transform')
+            rad = to_float(A[1]); L = float(frac(A[3]) - frac(A[2])); phi = phi_of(A[4])
+        else: return ('skip', 'leaf')
+    except IndexError: return MALFORMED
+    if rad <= 0 or L <= 0 or phi is None: return MALFORMED
+    if R[0] != 'ok': return ('skip', 'not-built')
+    return area_check('cylinder', R[7], phi * rad * L, 'r=%g length=%g phi=%g' % (rad, L, phi))
+
+def j_disk(ln):
+    A, R = ln.args, ln.res
+    k = A[0]
+    try:
+        if k == 'D0':
+            if not sane(A[1:8]): return MALFORMED
+            rad = to_float(A[7]); inner = 0.0; phi = 2 * math.pi
+        elif k == 'D1':
+            if not sane(A[1:13]): return MALFORMED
+            _, scaled, fin, _ = rd_ot(A, 13)
+            if not fin: return MALFORMED
+            if scaled: return ('skip', 'scaled-transform')
+            rad = to_float(A[7]); inner = to_float(A[8])
+            pm = to_float(A[12]); phi = math.radians(min(max(pm, 0.0), 360.0))     # documented: clamped
+        else: return ('skip', 'leaf')
+    except IndexError: return MALFORMED
+    if not (rad > inner >= 0): return MALFORMED
+    if R[0] != 'ok': return ('skip', 'not-built')
+    # annular sector: phi/2 * (R^2 - r^2)
+    want = phi * 0.5 * float(frac(A[7]) ** 2 - (frac(A[8]) ** 2 if k == 'D1' else 0))
+    if want == 0: return OK if is_finite(R[1]) and to_float(R[1]) == 0 else ('fail', 'disk-area', 'area 0 expected')
+    return area_check('disk', R[1], want, 'R=%g r=%g phi=%g' % (rad, inner, phi))
+
+def j_bb_misc(ln):
+    A, R = ln.args, ln.res
+    lo, hi = P(A, 0), P(A, 3)
+    d = vsub(hi, lo)
+    if min(d) < 0: return MALFORMED
+    area = 2 * (d[0] * d[1] + d[0] * d[2] + d[1] * d[2])
+    if not is_finite(R[1]) or abs(frac(R[1]) - area) > Fraction(REL()) * max(area, Fraction(1, 10**300)) + 0:
+        # the extents are formed in floating point: allow eps*|coordinates| on each
+        M = maxabs(lo, hi); slack = 8 * C.FMT.eps * M * (d[0] + d[1] + d[2]) * 2
+        if not is_finite(R[1]) or abs(frac(R[1]) - area) > Fraction(REL()) * area + slack:
+            return ('fail', 'box-surface-area', 'area %s expected, %s reported' % (g(area), g(to_float(R[1])) if is_finite(R[1]) else R[1]))
+    ax = int(R[0]); m = max(d)
+    top = sorted(d, reverse=True)
+    M = maxabs(lo, hi)
+    if top[0] - top[1] <= 8 * C.FMT.eps * max(M, top[0]): return ('skip', 'tie')
+    if d[ax] != m: return ('fail', 'box-max-extent', 'extents %s %s %s, axis %d reported' % (g(d[0]), g(d[1]), g(d[2]), ax))
+    return OK
+
+# ---- dispatch ----------------------------------------------------------------------------------------------------
+GEOM = {
+    'vec.cross': j_vec_cross, 'vec.len': j_vec_len, 'vec.norm': j_vec_norm, 'vec.zero': j_vec_zero, 'vec.cmp': j_vec_cmp,
+    'vec.par': j_vec_par, 'vec.perp': j_vec_perp, 'vec.ops': j_vec_ops, 'pt.dist': j_pt_dist, 'pt.col': j_pt_col,
+    'seg.new': j_seg_new, 'seg.cmp': j_seg_cmp, 'seg.cpt': j_seg_cpt, 'seg.cont': j_seg_cont, 'seg.ipt': j_seg_ipt,
+    'seg.int': j_seg_int, 'tri.new': j_tri_new, 'tri.tp': j_tri_tp, 'tri.idx': j_tri_idx, 'tri.edge': j_tri_edge,
+    'tri.cmp': j_tri_cmp, 'tri.mt': j_tri_mt, 'bb.misc': j_bb_misc,
+}
+PRIM = {'sp.ctor': j_sphere, 'sphere.ctor': j_sphere, 'cy.ctor': j_cyl, 'cyl.ctor': j_cyl, 'dk.ctor': j_disk, 'disk.ctor': j_disk}
+
+def judge(ln):
+    op = ln.op
+    f = PRIM.get(op)
+    if f is not None: return f(ln)
+    f = GEOM.get(op)
+    if f is None: return ('skip', 'leaf')
+    nums = ln.args[:-1] if op == 'tri.idx' else ln.args
+    if not sane(nums):
+        # absurd operands are outside the property; a panic is still not acceptable where none is documented
+        if ln.res and ln.res[0] == 'panic' and not op.startswith('tri.'): return ('fail', 'panic', 'panic on non-finite operands')
+        return MALFORMED
+    return f(ln)
